@@ -35,7 +35,9 @@ BOUND = (
     + '; plus data-flow runs (synthetic outputs = function of inputs, harness-side store, success-only replies): '
     'quick 2 per curated graph x {1,2 targets}, thorough 3 per universe, 10..30 external '
     'events each (root changes with any subset of values, re-requests, completions in random order), then '
-    'run to quiescence and compared with a from-scratch evaluation'
+    'run to quiescence and compared with a from-scratch evaluation; plus the worker side of a report: the real '
+    'worker.Context.run around a task that recorded every sequence of <= 3 (value, is new) pairs over two names (84 cases); '
+    'a task tree that lacks a declared consumer is reported as such (consumer-not-in-task-tree)'
 )
 CLAUSES = ['C02.complete', 'C02.minimal', 'C02.minimal-run', 'C02.closure', 'C02.from-scratch']
 
@@ -355,6 +357,65 @@ def dataflow_case(u, seed_str, n_events, result):
         sim.close()
 
 
+# ---- the worker's side of a report ------------------------------------------------------------------------------
+def worker_report_check(recorded):
+    '''the real dawgie.pl.worker.Context.run around a task that recorded the given (value name, is new) pairs - one per
+    ds.update() of each value, so a name may occur several times; returns a violation dict or None'''
+    import dawgie.pl.version
+    import dawgie.pl.worker
+
+    class _Task:
+        def __init__(self):
+            self._nv = [tuple(x) for x in recorded]
+
+        def do(self, goto=None):
+            return None
+
+        def timing(self):
+            return {}
+
+        def new_values(self, value=None):
+            return self._nv
+
+    def task(prefix, ps_hint=0, runid=-1, target='__none__'):
+        return _Task()
+
+    saved = dawgie.pl.version.record
+    dawgie.pl.version.record = lambda *a, **k: None
+    try:
+        got = dawgie.pl.worker.Context(('localhost', 0), 'rev').run(task, 0, 't.a', 3, 'T1', {})
+        got = [tuple(x) for x in got]
+    except Exception as e:  # pylint: disable=broad-except
+        got = [('raised', repr(e))]
+    finally:
+        dawgie.pl.version.record = saved
+    new = lambda pairs: sorted({n for n, f in pairs if f is True})  # noqa: E731
+    names = lambda pairs: sorted({n for n, _f in pairs})  # noqa: E731
+    if new(got) != new(recorded) or names(got) != names(recorded):
+        return {
+            'clause': 'C02.complete', 'signature': 'worker-report-differs-from-what-the-task-recorded',
+            'observed': {'recorded_by_task': [list(x) for x in recorded], 'reported_to_farm': [list(x) for x in got]},
+            'expected': 'every value the task authored is reported, and reported new when one of its updates was new',
+            'input': {'special': 'worker-report', 'recorded': [list(x) for x in recorded]},
+        }
+    return None
+
+
+def worker_report_part():
+    '''every sequence of <= 3 update records over two value names x {new, not new}'''
+    import itertools
+
+    atoms = [(n, f) for n in ('t.a.sv.p', 't.a.sv.q') for f in (True, False)]
+    cases, found = 0, {}
+    for k in (1, 2, 3):
+        for rec in itertools.product(atoms, repeat=k):
+            cases += 1
+            v = worker_report_check(list(rec))
+            if v is not None and v['signature'] not in found:
+                found[v['signature']] = v
+    return cases, list(found.values())
+
+
 def special_replay(inp):
     '''re-run a data-flow case from its seed string; returns the violations seen'''
     res = X.Result()
@@ -382,11 +443,21 @@ def run(tier, seed):
         else:
             j['dataflow'] = 3
             j['df_events'] = 10 + 5 * (n % 5)
-    return X.run_tier(PROPERTY, tier, seed, jobs, _job, Mon, X.RULE, CLAUSES, t0, special=special_replay)
+    out = X.run_tier(PROPERTY, tier, seed, jobs, _job, Mon, X.RULE, CLAUSES, t0, special=special_replay)
+    n, viol = worker_report_part()
+    out['cases'] += n
+    out['worker_report_cases'] = n
+    out['violations'] = list(out['violations']) + viol
+    return out
 
 
 def replay(case):
     inp = case.get('input', case)
+    if inp.get('special') == 'worker-report':
+        v = worker_report_check([tuple(x) for x in inp['recorded']])
+        if v is not None:
+            return {'reproduced': True, 'observed': v['observed'], 'expected': v['expected']}
+        return {'reproduced': False, 'observed': 'the report equals what the task recorded', 'expected': case.get('expected')}
     if inp.get('special') == 'dataflow':
         got = special_replay(inp)
         want = (case.get('clause'), case.get('signature')) if 'clause' in case else None
